@@ -3,5 +3,6 @@ CONSTANTS
   DurNs = {1, 2, 10, 59, 60, 100, 999, 1000, 4999, 5000}
   DatePairs <- QPairs
   TimePairs <- QTimePairs
+  DateTimePairs <- QDTPairs
   RefDay = 737128
 CHECK_DEADLOCK FALSE
